@@ -336,7 +336,8 @@ def main(engine, prop, argv):
             problem = engine.post_check(prop, agg)
             if problem:
                 print(f"HARNESS-ERROR: coverage lost: {problem}")
-                rc = max(rc, 2)
+                if rc == 0:
+                    rc = 2  # a confirmed violation (exit 1) is the more specific answer and keeps precedence
         print(f"done: items={agg.n}/{n_items} steps={agg.steps} distinct_fp={len(set(agg.fps.values()))} "
               f"states={len(agg.states)} nontrivial={len(agg.nontrivial)} violations={n_viol} wall={wall:.1f}s")
         return rc
